@@ -107,3 +107,70 @@ func selfBench(boxID string, limit int, prof string) {
 		layer = next
 	}
 }
+
+// scenario runs a hand-written schedule (development aid):
+//
+//	C<n> campaign  P<n> propose  I<n> isolate (I0 heal)  K<n> crash  R<n> restart  H<n> heartbeat
+//	D deliver oldest   X drop oldest   Q deliver oldest until the pool is empty
+func scenario(cfgName string, toks []string) {
+	cfg := cfgPlain(3, false)
+	switch cfgName {
+	case "one":
+		cfg = cfgOnePerMsg(3, false)
+	case "pvcq":
+		cfg = cfgPVCQ(3, false)
+	}
+	bud := Budget{MaxTerm: 9, Proposals: 9, Drops: 99, Dups: 9, Crashes: 9, Heartbeats: 9, Compacts: 9, Expires: 9}
+	c := newCluster(newSim(false), &cfg, &bud, true)
+	step := func(e Event) bool {
+		desc := c.describe(e)
+		d := c.step(e)
+		if d == nil {
+			fmt.Println("   not enabled:", desc)
+			return false
+		}
+		c = d
+		fmt.Println("  ", desc)
+		for _, v := range c.viol {
+			fmt.Println("      VIOLATION", v.Kind, v.Detail)
+		}
+		if id, idx := c.electableWithoutCommitted(); id != 0 {
+			fmt.Printf("      look-ahead: node %d electable without committed entry %d\n", id, idx)
+		}
+		return true
+	}
+	for _, t := range toks {
+		var n uint8
+		if len(t) > 1 {
+			n = t[1] - '0'
+		}
+		switch t[0] {
+		case 'C':
+			step(Event{K: evCampaign, N: n})
+		case 'P':
+			step(Event{K: evPropose, N: n})
+		case 'I':
+			step(Event{K: evIsolate, N: n})
+		case 'K':
+			step(Event{K: evCrash, N: n})
+		case 'R':
+			step(Event{K: evRestart, N: n})
+		case 'H':
+			step(Event{K: evHeartbeat, N: n})
+		case 'D':
+			if len(c.pool) > 0 {
+				step(Event{K: evDeliver, A: c.pool[0].seq})
+			}
+		case 'X':
+			if len(c.pool) > 0 {
+				step(Event{K: evDrop, A: c.pool[0].seq})
+			}
+		case 'Q':
+			for i := 0; len(c.pool) > 0 && i < 100; i++ {
+				step(Event{K: evDeliver, A: c.pool[0].seq})
+			}
+			fmt.Println(c.summary())
+		}
+	}
+	fmt.Println(c.summary())
+}
